@@ -4,7 +4,7 @@ import itertools
 LETTERS = ['a', 'b', 'c', 'é', 'я', '1']
 
 
-def gen_omen(rng, ngram=None, nletters=None, maxlen_extra=None, levels=None, density=None):
+def gen_omen(rng, ngram=None, nletters=None, maxlen_extra=None, levels=None, density=None, allow_unstartable=False):
     n = ngram or rng.choice([2, 2, 3, 3, 4, 5])
     k = nletters or rng.randint(2, 3 if n >= 4 else 4)
     alphabet = LETTERS[:k]
@@ -21,13 +21,15 @@ def gen_omen(rng, ngram=None, nletters=None, maxlen_extra=None, levels=None, den
                 cp.append([rng.choice(levels), s + c])
     if not ip:
         ip.append([levels[0], alphabet[0] * (n - 1)])
+    if not allow_unstartable and all(l >= 10 for l, _ in ip):
+        ip[0][0] = min(levels)
     rng.shuffle(ip)
     rng.shuffle(cp)
     extra = maxlen_extra if maxlen_extra is not None else rng.randint(0, 3 if k <= 3 else 2)
     maxlen = n + extra
     ln = [rng.choice(levels + [10]) for _ in range(maxlen)]
-    if all(l == 10 for l in ln[n - 1:]):
-        ln[-1] = levels[0]
+    if all(l == 10 for l in ln[n - 1:]) and not (allow_unstartable and rng.random() < 0.5):
+        ln[-1] = min(levels) if min(levels) < 10 else 0
     return {'ngram': n, 'alphabet': alphabet, 'ip': ip, 'ep': ep, 'cp': cp, 'ln': ln, 'keyspace': []}
 
 
